@@ -5,6 +5,7 @@
  *   dwarf_siblingof(d, r)  0 and r = next sibling, 1 if there is none (unit DIEs have none); r may alias d
  *   dwarf_offdie(dw, o, r) r = the DIE at offset o, NULL if there is none
  *   dwarf_dieoffset(d)     its offset
+ *   dwarf_haschildren(d)   the abbreviation's flag: 1 for every DIE with children, 0 or 1 for childless ones
  *   dwarf_nextcu(dw, o, &next, &hsize, ...)  0 if a unit header starts at o (next = following header or section end), 1 at section end
  * Errors (-1) are not modelled.  A Dwarf_Die is identified by .addr = (void *)(index + 1). */
 #ifndef C02_DW_MODEL_H
@@ -20,7 +21,8 @@ typedef struct empty_base { char unused; } empty_base;
 typedef struct vec_off { unsigned long d[VMAXO]; unsigned long n; } vec_off;
 typedef struct offpair { unsigned long first; unsigned long second; } offpair;
 typedef struct vec_pair { offpair d[VMAXO]; unsigned long n; } vec_pair;
-extern int g_par[NN]; extern unsigned long g_off[NN]; extern unsigned g_n;      /* g_n <= NN DIEs in play */
+extern int g_par[NN]; extern unsigned long g_off[NN]; extern unsigned g_n;
+extern _Bool g_claims_children[NN];   /* the abbreviation's has-children flag: true for every DIE that has children, arbitrary for the others */      /* g_n <= NN DIEs in play */
 #ifdef VERIF_CBMC
 #define M_ASSERT(c, msg) __CPROVER_assert(c, "libdw model: " msg)
 #else
